@@ -183,6 +183,9 @@ class FullOps(TorchCalls):
                         dt = c.dtype
             elif name != "type":
                 dt = {"double": "Fixed:float64", "float": "Fixed:float32", "half": "Fixed:float16", "long": "Int", "int": "Int", "bool": "Bool"}[name]
+            if t.dtype == "M" and dt in ("Fixed:float32", "Fixed:float16", "Fixed:bfloat16") and t.kind == "tensor" and "matrix" in t.origin:
+                self.ev("precision_loss", node, why=f"values computed from the matrix are converted to {dt[6:]}: for a float64 matrix the intermediate results are rounded (and can underflow / overflow) "
+                                                   "before the result is converted back to the matrix dtype")
             if t.dtype == "Default" and dt == "M":
                 c = t.poly.const_value() if t.poly is not None else None
                 if c is None or c.denominator != 1:
@@ -900,11 +903,19 @@ class FullOps(TorchCalls):
             return a0.but(dtype="Bool", deg=F0)
         if fn in ("matrix_rank",):
             return TV(kind=kind, axes=(), deg=F0, dtype="Int", p=a0.p, q=a0.q, s=a0.s, z=a0.z)
-        if fn == "isclose" and len(args) >= 2 and isinstance(kwargs.get("rtol"), Const) and kwargs["rtol"].v in (0, 0.0) and kwargs.get("atol") is not None and tv_of(args[1]) is not None:
-            # isclose(a, b, rtol=0, atol=t) is |a - b| <= t — inclusive
-            diff = self.elementwise(a0, tv_of(args[1]), "sub", node)
+        if fn == "isclose" and len(args) >= 2 and tv_of(args[1]) is not None:
+            # isclose(a, b, rtol=r, atol=t) is |a - b| <= t + r·|b| — inclusive; the defaults are r = 1e-5 and t = 1e-8 (an ABSOLUTE term that is there
+            # even when only rtol is passed)
+            b_ = tv_of(args[1])
+            diff = self.elementwise(a0, b_, "sub", node)
             diff = self.call_lib(lib, "abs", [diff], {}, node, env)
-            return self.compare(diff, ast.LtE(), kwargs["atol"], node, env)
+            atol = kwargs.get("atol", args[3] if len(args) > 3 else Const(1e-8))
+            rtol = kwargs.get("rtol", args[2] if len(args) > 2 else Const(1e-5))
+            bound = tv_of(atol)
+            if not (isinstance(rtol, Const) and rtol.v in (0, 0.0)) and b_.deg != Z and tv_of(rtol) is not None and bound is not None:
+                bound = self.elementwise(bound, self.elementwise(tv_of(rtol), self.call_lib(lib, "abs", [b_], {}, node, env), "mul", node), "add", node)
+            if bound is not None:
+                return self.compare(diff, ast.LtE(), bound, node, env)
         if fn == "allclose" or fn == "equal" or fn == "array_equal":
             return TV(kind="pybool", dtype="Bool")
 
